@@ -133,13 +133,17 @@ func (g *GenCfg) genOp(t *rapid.T) Op {
 	case "appN", "msetN":
 		op.V = g.genVD(t, 1)
 		op.N = rapid.IntRange(1, g.MaxBulk).Draw(t, "n")
+	case "setN", "mupdN":
+		op.V = g.genVD(t, 9)
+		op.N = rapid.IntRange(1, g.MaxBulk*4).Draw(t, "n")
+		op.D = rapid.SampledFrom([]int{0, 2, 2}).Draw(t, "tiny")
 	case "remN", "mremN":
 		op.N = rapid.IntRange(1, g.MaxBulk).Draw(t, "n")
 	case "commit", "reopen", "evict":
 		op.N = rapid.SampledFrom([]int{1, 2, 3, 8}).Draw(t, "workers")
 	}
 	switch k {
-	case "grow", "mgrow", "reset", "mreset", "ins", "set", "rem", "get", "remN", "mset", "mget", "mhas", "mrem", "msetN", "mremN",
+	case "grow", "mgrow", "reset", "mreset", "setN", "mupdN", "ins", "set", "rem", "get", "remN", "mset", "mget", "mhas", "mrem", "msetN", "mremN",
 		"badget", "badset", "badins", "badrem", "mbadget", "mbadrem", "mbadhas", "styp", "reattach", "drop":
 		op.P = rapid.Uint64Range(0, 1<<20).Draw(t, "p")
 	}
